@@ -10,6 +10,7 @@ namespace sim {
 struct Hooks {
   std::function<void(bloc::Context&, const bloc::Statement*)> on_statement;
   std::function<void(bloc::Context&)> on_allocate;
+  std::function<void()> on_trace;   // every debug trace point of the library (the simulation build compiles the library's DEBUG_* trace switches in)
   void install();     // point bloc::verif_hooks at this object
   static void remove();
   ~Hooks() { remove(); }
